@@ -178,6 +178,10 @@ def run_given(ctx: Ctx, strategy, body, max_examples: int, seed: int, shrink: bo
     Any exception other than Violation is a harness error and propagates.
     """
     phases = [Phase.generate, Phase.target] + ([Phase.shrink] if shrink else [])
+    # shrinking budget (affects only how small the replay is, never the verdict)
+    import hypothesis.internal.conjecture.engine as _eng
+
+    _eng.MAX_SHRINKING_SECONDS = int(os.environ.get("VF_SHRINK_SECONDS", "45"))
 
     @hypothesis.seed(seed)
     @settings(
